@@ -2,20 +2,49 @@
 """Print the prompt for a seeding sub-agent: only the property text and a scratch worktree."""
 import json, sys
 pid = sys.argv[1]
-hints = sys.argv[2] if len(sys.argv) > 2 else ''
+mode = sys.argv[2] if len(sys.argv) > 2 else 'break'      # break | break2 | harmless
+root = {'break': '/tmp/seed', 'break2': '/tmp/seed2', 'harmless': '/tmp/harmless'}[mode]
+hints = ''
 for l in open('/verif/properties.jsonl'):
     p = json.loads(l)
     if p['id'] == pid:
         break
+import glob, os
+if mode == 'break2':
+    used = []
+    for d in sorted(glob.glob('/verif/seeded/%s-*' % pid)):
+        try:
+            m = json.load(open(os.path.join(d, 'meta.json')))
+            sm = m.get('summary')
+            used.append('- ' + (' '.join(sm) if isinstance(sm, list) else str(sm))[:300])
+        except Exception:
+            pass
+    hints = ('Other people have already tried the following ideas; do NOT repeat them or close variants, go for a different '
+             'mechanism, a different function or a different clause of the property:\n' + '\n'.join(used) +
+             '\nAim for subtle changes: ones that need a multi-step sequence of calls, state carried between calls, a rare branch, '
+             'a particular combination of three or more options, a specific worker count or scheduling, or two or three '
+             'cooperating edits that are each harmless alone.')
 files = ', '.join(p['anchors']['files'])
 mech = '; '.join(m['where'] for m in p['anchors']['mechanism'])
-print(f"""You are testing how well a semantic property of a Python library is protected. Work ONLY inside the scratch git worktree /tmp/seed/{pid}/repo (a checkout of the library `emd`, AJQuinn/emd-mirror; Python interpreter: /venv/bin/python; run scripts with `cd /tmp/seed/{pid}/repo && PYTHONPATH=/tmp/seed/{pid}/repo /venv/bin/python script.py` so that the worktree's code is imported — verify with `print(emd.__file__)`). Do not read or touch /verif or /repo. No network.
+if mode == 'harmless':
+    print(f"""You are helping to test a verification tool for FALSE ALARMS. Work ONLY inside the scratch git worktree {root}/{pid}/repo (a checkout of the Python library `emd`, AJQuinn/emd-mirror; Python interpreter: /venv/bin/python; run scripts with `cd {root}/{pid}/repo && PYTHONPATH={root}/{pid}/repo /venv/bin/python script.py` so that the worktree's code is imported — verify with `print(emd.__file__)`). Do not read or touch /verif or /repo. No network.
+
+Property (it holds for the library as it is, and must STILL hold after your changes):
+"{pid} — {p['title']}. {p['statement']}"
+Quantified over: {p['quantifier']['text']}
+The relevant code is in: {files} ({mech}).
+
+Your job: produce TWO independent, realistic HARMLESS rewrites of the code this property is anchored in — the kind of refactoring a maintainer does: restructure or vectorise a loop, replace an internal algorithm by an equivalent one, rename or split internal helpers, reorder independent statements, change how intermediate values are stored, tidy option handling — such that the library's observable behaviour relevant to the property is preserved (same results for valid inputs up to floating-point rounding at the 1e-12 level at most, same accepted/rejected inputs, same exception types where the property speaks about them). Do NOT change public function names, signatures or documented defaults. The rewrites should be substantial enough that a checker tied too closely to the current code text, to internal call sequences, to internal helper functions or to exact bit patterns could be confused, but they must not break the property. The existing test suite must still pass: `cd {root}/{pid}/repo && /venv/bin/python -m pytest -q -p no:cacheprovider --timeout=900` (38 tests pass on the unchanged tree).
+
+For each rewrite i in {{1,2}} deliver in {root}/{pid}/out/: `patch<i>.diff` (output of `git diff`, applicable with `git apply` to the unchanged tree), `demo<i>.py` (a small standalone program that checks the property's own words on several concrete inputs, including unusual ones, and exits 0 both with and without the rewrite), and `meta<i>.json` with keys: property ("{pid}"), summary, why_it_is_harmless, files_changed, commands_run. After producing each patch, restore the worktree with `git checkout -- .`. Leave the worktree clean at the end. Final message: a 10-line summary.""")
+    sys.exit(0)
+print(f"""You are testing how well a semantic property of a Python library is protected. Work ONLY inside the scratch git worktree {root}/{pid}/repo (a checkout of the library `emd`, AJQuinn/emd-mirror; Python interpreter: /venv/bin/python; run scripts with `cd {root}/{pid}/repo && PYTHONPATH={root}/{pid}/repo /venv/bin/python script.py` so that the worktree's code is imported — verify with `print(emd.__file__)`). Do not read or touch /verif or /repo. No network.
 
 Property (must hold for the library):
 "{pid} — {p['title']}. {p['statement']}"
 Quantified over: {p['quantifier']['text']}
 The relevant code is in: {files} ({mech}).
 
-Your job: produce TWO independent, realistic changes to the library source (the kind of regression a maintainer could plausibly introduce during a refactor, clean-up or "optimisation"), each of which BREAKS this property while (a) the package still imports, and (b) the existing test suite still passes exactly as before: `cd /tmp/seed/{pid}/repo && /venv/bin/python -m pytest -q -p no:cacheprovider --timeout=900` (38 tests pass on the unchanged tree). Prefer changes that need something specific to manifest — an unusual input, a particular option combination, a multi-step sequence of operations, a particular worker/process count, or two cooperating sites that each look fine alone — NOT ones any ordinary call would expose at once. The two changes should be of different character and touch different mechanisms. {hints}
+Your job: produce TWO independent, realistic changes to the library source (the kind of regression a maintainer could plausibly introduce during a refactor, clean-up or "optimisation"), each of which BREAKS this property while (a) the package still imports, and (b) the existing test suite still passes exactly as before: `cd {root}/{pid}/repo && /venv/bin/python -m pytest -q -p no:cacheprovider --timeout=900` (38 tests pass on the unchanged tree). Prefer changes that need something specific to manifest — an unusual input, a particular option combination, a multi-step sequence of operations, a particular worker/process count, or two cooperating sites that each look fine alone — NOT ones any ordinary call would expose at once. The two changes should be of different character and touch different mechanisms. {hints}
 
-For each change i in {{1,2}} deliver in /tmp/seed/{pid}/out/: `patch<i>.diff` (output of `git diff` in the worktree, applicable with `git apply` to the unchanged tree), `demo<i>.py` (a small standalone program that exits 0 with the unchanged library and exits non-zero, printing what is wrong, with the change applied; it must check the property's own words on a concrete input and must not depend on anything outside the worktree), and `meta<i>.json` with keys: property ("{pid}"), summary, what_it_needs_to_manifest, files_changed, commands_run (the exact commands you ran and their outcome: test suite result with the patch, demo result with and without the patch). After producing each patch, restore the worktree with `git checkout -- .` and verify the demo passes again on the unchanged tree. Leave the worktree clean at the end. Final message: a 10-line summary of the two changes.""")
+For each change i in {{1,2}} deliver in {root}/{pid}/out/: `patch<i>.diff` (output of `git diff` in the worktree, applicable with `git apply` to the unchanged tree), `demo<i>.py` (a small standalone program that exits 0 with the unchanged library and exits non-zero, printing what is wrong, with the change applied; it must check the property's own words on a concrete input and must not depend on anything outside the worktree), and `meta<i>.json` with keys: property ("{pid}"), summary, what_it_needs_to_manifest, files_changed, commands_run (the exact commands you ran and their outcome: test suite result with the patch, demo result with and without the patch). After producing each patch, restore the worktree with `git checkout -- .` and verify the demo passes again on the unchanged tree. Leave the worktree clean at the end. Final message: a 10-line summary of the two changes.""")
